@@ -99,6 +99,46 @@ static void iokinds_pass(int reps) {
     }
 }
 
+// every allocator / constructor / destructor / deallocator family of the public API, single objects and arrays, in the four
+// documented pairings: new/delete, new_array/delete_array, alloc+init/destroy+free, alloc_array+init_array/destroy_array+free_array
+#define SWEEP(T, ...) do { \
+        VH_OP("allocators:" #T); \
+        { T *o = new_##T(__VA_ARGS__); delete_##T(o); } \
+        { T *o = new_##T##_array(3, __VA_ARGS__); delete_##T##_array(3, o); } \
+        { T *o = alloc_##T(); init_##T(o, __VA_ARGS__); destroy_##T(o); free_##T(o); } \
+        { T *o = alloc_##T##_array(2); init_##T##_array(2, o, __VA_ARGS__); destroy_##T##_array(2, o); free_##T##_array(2, o); } \
+        { T *o = alloc_##T##_array(1); init_##T(o, __VA_ARGS__); destroy_##T(o); free_##T##_array(1, o); } \
+        out.evaluations += 5; out.cell("allocators:" #T); } while (0)
+
+static void allocator_sweep(int reps) {
+    for (int rep = 0; rep < reps; rep++) {
+        int n = rep == 0 ? 1 : 1 + (int) rng.below(40), k = 1 + (int) rng.below(2), l = 1 + (int) rng.below(3), Bgbit = 2 + (int) rng.below(8), t = 1 + (int) rng.below(3), bb = 1 + (int) rng.below(2);
+        LweParams *lp = new_LweParams(n, 1e-5, 0.1);
+        TLweParams *tp = new_TLweParams(1024, k, 1e-9, 0.1);
+        TGswParams *gp = new_TGswParams(l, Bgbit, tp);
+        SWEEP(LweParams, n, 1e-5, 0.1);
+        SWEEP(TLweParams, 1024, k, 1e-9, 0.1);
+        SWEEP(TGswParams, l, Bgbit, tp);
+        SWEEP(LweKey, lp); SWEEP(LweSample, lp);
+        SWEEP(TLweKey, tp); SWEEP(TLweSample, tp); SWEEP(TLweSampleFFT, tp);
+        SWEEP(TGswKey, gp); SWEEP(TGswSample, gp); SWEEP(TGswSampleFFT, gp);
+        SWEEP(IntPolynomial, 1024); SWEEP(TorusPolynomial, 1024); SWEEP(LagrangeHalfCPolynomial, 1024);
+        SWEEP(IntPolynomial, 1 + (int) rng.below(64)); SWEEP(TorusPolynomial, 1 + (int) rng.below(64));
+        SWEEP(LweKeySwitchKey, 1 + (int) rng.below(20), t, bb, lp);
+        SWEEP(LweBootstrappingKey, t, bb, lp, gp);
+        { LweBootstrappingKey *bk = new_LweBootstrappingKey(t, bb, lp, gp);
+          for (int i = 0; i < n; i++) for (int r = 0; r < gp->kpl; r++) for (int q = 0; q <= k; q++) for (int j = 0; j < 1024; j++) bk->bk[i].all_sample[r].a[q].coefsT[j] = rng.i32();
+          for (int r = 0; r < 1024 * k * t * (1 << bb); r++) { for (int j = 0; j < n; j++) bk->ks->ks0_raw[r].a[j] = rng.i32(); bk->ks->ks0_raw[r].b = rng.i32(); bk->ks->ks0_raw[r].current_variance = 0; }
+          SWEEP(LweBootstrappingKeyFFT, bk);
+          delete_LweBootstrappingKey(bk); }
+        delete_TGswParams(gp); delete_TLweParams(tp); delete_LweParams(lp);
+    }
+    // gate-API allocation functions
+    { TFheGateBootstrappingParameterSet *p = new_default_gate_bootstrapping_parameters(80); LweSample *c = new_gate_bootstrapping_ciphertext(p), *a = new_gate_bootstrapping_ciphertext_array(5, p);
+      delete_gate_bootstrapping_ciphertext_array(5, a); delete_gate_bootstrapping_ciphertext(c); delete_gate_bootstrapping_parameters(p); out.evaluations += 3; out.cell("allocators:gate-api"); }
+    out.sample(J().s("mode", "allocator families: new/delete, new_array/delete_array, alloc+init/destroy+free, array variants, mixed").i("reps", reps).i("types", 17));
+}
+
 // thread create/exit histories: per-thread FFT state must be released when the thread exits
 static void thread_histories(int count, int burst) {
     PSet *ps = new PSet(8, 1024, 1, 2, 8, 8, 2, ldexp(1., -20), ldexp(1., -30));   // decryptable: (t,basebit) = (8,2)
@@ -152,6 +192,7 @@ int main(int argc, char **argv) {
     std::string mode = args.s("mode", "lifecycle");
     if (mode == "lifecycle") lifecycle(args.i("n", 3), args.i("k", 1), args.i("l", 2), args.i("Bgbit", 10), args.i("t", 8), args.i("basebit", 2), args.i("order", 0), args.i("heavyio", 1));
     else if (mode == "iokinds") iokinds_pass(args.i("reps", 4));
+    else if (mode == "allocators") allocator_sweep(args.i("reps", 3));
     else if (mode == "threads") thread_histories(args.i("count", 50), args.i("burst", 10));
     out.finish();
     // give the library the chance to release its garbage-collected parameters? no API is public for that: they stay reachable
